@@ -56,6 +56,10 @@ pub enum BodyAct {
     Cancel,
     Panic,
     Return(u8),
+    /// panic / return right where the body is, even inside a syscall state (the documented
+    /// graph has no Syscall -> Error / Complete edge: nothing may be reported)
+    PanicInPlace,
+    ReturnInPlace(u8),
 }
 
 #[derive(Debug, Clone, Copy, Serialize, Deserialize, PartialEq)]
@@ -91,7 +95,7 @@ fn body_act() -> impl Strategy<Value = BodyAct> {
 pub fn strategy() -> impl Strategy<Value = Case> {
     (
         proptest::collection::vec(body_act(), 0..14),
-        prop_oneof![4 => (0u8..8).prop_map(BodyAct::Return), 2 => Just(BodyAct::Panic), 2 => Just(BodyAct::Cancel)],
+        prop_oneof![4 => (0u8..8).prop_map(BodyAct::Return), 2 => Just(BodyAct::Panic), 2 => Just(BodyAct::Cancel), 2 => Just(BodyAct::PanicInPlace), 1 => (0u8..8).prop_map(BodyAct::ReturnInPlace)],
         proptest::collection::vec(
             prop_oneof![
                 3 => Just(DriverAct::Plain),
@@ -197,6 +201,8 @@ struct Shared {
     illegal: u32,
     kinds: std::collections::BTreeSet<&'static str>,
     syscall_cycles: u32,
+    /// the body ended while the coroutine was in a syscall state
+    limbo: bool,
 }
 
 impl Shared {
@@ -358,6 +364,31 @@ fn exec_raw_inner(c: &Case) -> Outcome {
                     }
                     BodyAct::Sys { name, st } => do_syscall(me, &bsh, NAMES[name as usize % 4], sys_state(st), "body"),
                     BodyAct::RunningCall => do_running(me, &bsh, "body"),
+                    BodyAct::PanicInPlace | BodyAct::ReturnInPlace(_) => {
+                        let cur_now = bsh.borrow().cur();
+                        let in_sys = matches!(cur_now, CoroutineState::Syscall(..));
+                        if in_sys {
+                            let mut g = bsh.borrow_mut();
+                            g.limbo = true;
+                            g.illegal += 1;
+                        }
+                        match *act {
+                            BodyAct::PanicInPlace => {
+                                if !in_sys {
+                                    bsh.borrow_mut().change(CoroutineState::Error("c07 body panic"));
+                                }
+                                panic!("c07 body panic");
+                            }
+                            BodyAct::ReturnInPlace(v) => {
+                                let r = if v == 0 { None } else { Some(v as usize) };
+                                if !in_sys {
+                                    bsh.borrow_mut().change(CoroutineState::Complete(r));
+                                }
+                                return r;
+                            }
+                            _ => unreachable!(),
+                        }
+                    }
                     BodyAct::Cancel | BodyAct::Panic | BodyAct::Return(_) => {
                         // leave any syscall state the way hooked code does before ending
                         let cur_now = bsh.borrow().cur();
@@ -477,6 +508,17 @@ fn exec_raw_inner(c: &Case) -> Outcome {
             sh.borrow_mut().fail("C07/raw/panic-unwound-into-resumer", "resume() panicked".into());
             break;
         };
+        if sh.borrow().limbo {
+            // the body ended inside a syscall state: no edge of the graph applies
+            if r.is_ok() {
+                let st = sh.borrow().cur();
+                sh.borrow_mut().fail(
+                    "C07/raw/body-end-in-syscall-state-reported-as-a-transition",
+                    format!("the body ended while the coroutine was in {st:?}; resume() returned {r:?} (Syscall may only go to Running or to Syscall of the same call)"),
+                );
+            }
+            break;
+        }
         if expect_refused {
             if r.is_ok() || sh.borrow().body_steps != steps_before || recs.borrow().len() != recs_before {
                 sh.borrow_mut().fail(
@@ -499,6 +541,7 @@ fn exec_raw_inner(c: &Case) -> Outcome {
         }
     }
     // after the end: sticky, no code, no records
+    let illegal_generated = sh.borrow().illegal;
     let term = sh.borrow().cur();
     if sh.borrow().fail.is_none() && is_terminal(&term) {
         check_state(&co, &sh, "at the end");
@@ -586,10 +629,11 @@ fn exec_raw_inner(c: &Case) -> Outcome {
             }
         }
     }
-    let nt = s.kinds.len() >= 3 && (s.illegal >= 1 || s.syscall_cycles >= 1);
+    let nt = s.kinds.len() >= 4 && (illegal_generated >= 1 || s.syscall_cycles >= 1);
     let mut o = Outcome::pass()
         .nt(nt)
-        .class_if(s.illegal >= 1, "illegal-attempt")
+        .class_if(illegal_generated >= 1, "illegal-attempt")
+        .class_if(s.limbo, "body-ended-inside-a-syscall-state")
         .class_if(s.syscall_cycles >= 1, "syscall-to-syscall")
         .class_if(s.kinds.contains("cancel"), "cancelled")
         .class_if(s.kinds.contains("error"), "error")
@@ -757,7 +801,7 @@ pub fn main(args: &Args) -> i32 {
         &RunCfg {
             property: "C07",
             sub: "raw",
-            rule: "body script (suspend / until past|now|soon / syscall(name,state) legal and illegal / running() / cancel|panic|return) x driver script (early resume, running(), mark Callback|Timeout, plain) interpreted against the documented state machine; non-trivial = >=3 distinct state kinds and (>=1 illegal attempt or >=1 syscall->syscall change)",
+            rule: "body script (suspend / until past|now|soon / syscall(name,state) legal and illegal / running() / cancel|panic|return) x driver script (early resume, running(), mark Callback|Timeout, plain) interpreted against the documented state machine; non-trivial = >=4 distinct state kinds and (>=1 generated illegal attempt or >=1 syscall->syscall change)",
             seed: args.seed,
             cases: args.cases(4_000, 150_000),
             shards: 16,
